@@ -1350,3 +1350,47 @@ func c03r8(rc *core.RC) {
 		rc.Unknown("json/nil-branches", token.NoPos, "found %d encode helpers with a branch for an untyped nil (confirmed: 3)", n)
 	}
 }
+
+// ---- C03.R9 the indenting entry path ends its value as its caller expects ----
+
+// marshal cuts one byte from what encode returns (the plain interpreters end a value with `,`), marshalIndent cuts
+// two from what encodeIndent returns (the indenting interpreters end it with `,\n`). encodeIndent therefore has to
+// get its bytes from the indenting side only: a shortcut through encode (for an empty prefix and indent, say) hands
+// marshalIndent a value that ends in one byte, and the last byte of the value is cut off with it. Obligation:
+// encodeIndent calls neither encode nor encodeRunCode.
+func c03r9(rc *core.RC) {
+	p := rc.P
+	fd := p.Func("json", "encodeIndent")
+	key := "json.encodeIndent/bytes-from-the-indenting-side-only"
+	if fd == nil || fd.Body == nil {
+		rc.Unknown(key, token.NoPos, "encodeIndent not found")
+		return
+	}
+	rc.Touch(p.FuncName(fd))
+	info := p.Info(fd)
+	var bad *ast.CallExpr
+	indenting := false
+	ast.Inspect(fd.Body, func(m ast.Node) bool {
+		call, ok := m.(*ast.CallExpr)
+		if !ok {
+			return true
+		}
+		switch core.CalleeName(info, call) {
+		case "json.encode", "json.encodeRunCode", "json.encodeNoEscape":
+			if bad == nil {
+				bad = call
+			}
+		case "json.encodeRunIndentCode":
+			indenting = true
+		}
+		return true
+	})
+	switch {
+	case bad != nil:
+		rc.Bad(key, bad.Pos(), "encodeIndent returns what %s made: a value that ends in `,` where its caller marshalIndent cuts the two bytes `,\\n` of the indenting interpreters, so MarshalIndent(v, \"\", \"\") loses the last byte of the value ({\"a\":1 for {\"a\":1})", core.Src(p.Fset, bad.Fun))
+	case !indenting:
+		rc.Unknown(key, fd.Pos(), "encodeIndent does not call encodeRunIndentCode")
+	default:
+		rc.OK(key, fd.Pos(), "the bytes come from encodeRunIndentCode (and AppendCommaIndent for nil)")
+	}
+}
